@@ -30,13 +30,13 @@ theorem opOK_low {kf : KF} (b : Base) (l : Nat) {op : Op} (h : OpOK kf (some b) 
   cases op with
   | ins k pn => trivial
   | upd pos pn =>
-    obtain ⟨b', e, h1⟩ := h
+    obtain ⟨b', e, h1, h2⟩ := h
     cases e
-    exact ⟨_, rfl, h1⟩
+    exact ⟨_, rfl, h1, h2⟩
   | keep s e sum =>
-    obtain ⟨b', eb, h1, h2, h3⟩ := h
+    obtain ⟨b', eb, h1, h2, h3, h4⟩ := h
     cases eb
-    exact ⟨_, rfl, h1, h2, h3⟩
+    exact ⟨_, rfl, h1, h2, h3, h4⟩
 
 theorem trOK_low {kf : KF} (b : Base) (l : Nat) {ops : List Op} {g : Gauge} (h : TrOK kf (some b) ops g) :
     TrOK kf (some { b with low := l }) ops g :=
